@@ -9,6 +9,7 @@ mod common;
 mod elem;
 mod exec;
 mod ledger;
+mod micro;
 mod pair;
 mod replay;
 mod sweep;
@@ -96,6 +97,24 @@ fn main() {
             let mut j = rep.to_json();
             j["sweep"] = serde_json::json!({"cases": st.cases, "runs": st.runs, "max_callbacks": st.max_callbacks,
                 "truncated": st.truncated, "callback_kinds": st.cb_kinds, "failing_sites": st.failing_sites});
+            let out = arg(&args, "--out").expect("--out");
+            std::fs::write(out, serde_json::to_string_pretty(&j).unwrap()).expect("write report");
+        }
+        "micro" => {
+            let set_mode = arg(&args, "--mode").unwrap_or("map") == "set";
+            let adv = arg(&args, "--adv").unwrap_or("0") == "1";
+            if let Some(p) = arg(&args, "--progress") {
+                let f = std::fs::File::create(p).expect("progress file");
+                PROGRESS.with(|x| *x.borrow_mut() = Some(f));
+            }
+            let env = replay::measure_all(set_mode, &[0, 1, 2, 3, 4]);
+            let mut rep = replay::Report::default();
+            let st = micro::run_micro(arg(&args, "--table").expect("--table"), &env, adv, &mut rep);
+            let mut j = rep.to_json();
+            j["sweep"] = serde_json::json!({"cases": st.lines, "runs": st.runs, "max_callbacks": st.max_callbacks, "truncated": 0,
+                "callback_kinds": st.cb_kinds, "failing_sites": st.failing_sites,
+                "injected_runs": st.injected_runs, "extra_positions": st.extra_positions,
+                "drift_callbacks": st.drift_cb, "drift_outcome": st.drift_out, "drift_survivors": st.drift_post, "drift_asked": st.drift_asked});
             let out = arg(&args, "--out").expect("--out");
             std::fs::write(out, serde_json::to_string_pretty(&j).unwrap()).expect("write report");
         }
